@@ -657,10 +657,17 @@ func runC08(c *core.Ctx, idx int) {
 			return nil
 		}
 		var err error
+		// every fifth transaction is started without a context of the caller's (nil): the database makes one up, and
+		// the transaction is a transaction like any other - its completion is announced, its events are delivered
+		var callCtx boltz.MutateContext = ctx
+		if s%5 == 2 && !preRegistered && ctx != lastCtx {
+			callCtx = nil
+			c.Cover("nesting", "transaction-started-without-a-context")
+		}
 		if mode == "batch" {
-			err = e.Db.Batch(ctx, body)
+			err = e.Db.Batch(callCtx, body)
 		} else {
-			err = e.Db.Update(ctx, body)
+			err = e.Db.Update(callCtx, body)
 		}
 		vetoArmed = false
 		lastCtx, lastOutcome = ctx, map[bool]string{true: "committed", false: "rolled back"}[err == nil]
